@@ -70,38 +70,33 @@ def parseDigits : Bytes → Nat → Option Nat
     | some d => parseDigits bs (acc * 10 + d)
     | none => none
 
+/-- an optional leading `+` -/
+def stripPlus (s : Bytes) : Bytes :=
+  match s with
+  | 43 :: rest => rest
+  | _ => s
+
+/-- the digits part: non-empty, all digits -/
+def parseBody (body : Bytes) : Option Nat :=
+  if body.isEmpty then none else parseDigits body 0
+
 /-- `s.parse::<u64>()`: optional `+`, at least one digit, no overflow. -/
 def parseU64 (s : Bytes) : Option Nat :=
-  let body := match s with
-    | 43 :: rest => rest
-    | _ => s
-  match body with
-  | [] => none
-  | _ =>
-    match parseDigits body 0 with
-    | some v => if v < 18446744073709551616 then some v else none
-    | none => none
+  match parseBody (stripPlus s) with
+  | some v => if v < 18446744073709551616 then some v else none
+  | none => none
 
 /-- `s.parse::<i64>()`: optional `+`/`-`, at least one digit, range check. -/
 def parseI64 (s : Bytes) : Option Int :=
   match s with
   | 45 :: rest =>
-    (match rest with
-     | [] => none
-     | _ =>
-       match parseDigits rest 0 with
-       | some v => if v ≤ 9223372036854775808 then some (-(v : Int)) else none
-       | none => none)
+    (match parseBody rest with
+     | some v => if v ≤ 9223372036854775808 then some (-(v : Int)) else none
+     | none => none)
   | _ =>
-    let body := match s with
-      | 43 :: rest => rest
-      | _ => s
-    match body with
-    | [] => none
-    | _ =>
-      match parseDigits body 0 with
-      | some v => if v < 9223372036854775808 then some (v : Int) else none
-      | none => none
+    match parseBody (stripPlus s) with
+    | some v => if v < 9223372036854775808 then some (v : Int) else none
+    | none => none
 
 def lowerAscii (b : UInt8) : UInt8 :=
   if 65 ≤ b.toNat ∧ b.toNat ≤ 90 then UInt8.ofNat (b.toNat + 32) else b
